@@ -262,7 +262,7 @@ theorem exists_iff_mem_filter_map (l : List Bytes) (g : Bytes → Bool) (f : Byt
   · rintro ⟨n, hn, hg, rfl⟩; exact ⟨n, ⟨hn, hg⟩, rfl⟩
   · rintro ⟨n, ⟨hn, hg⟩, rfl⟩; exact ⟨n, hn, hg, rfl⟩
 
-def ext0 : Ext := { idnaXn := fun _ => true, isETLD := fun _ => false, ip6 := fun _ => none }
+def extTw : Ext := { idnaXn := fun _ => true, isETLD := fun _ => false, ip6 := fun _ => none }
 def tw1 : Config where
   origins := [Spec.b "https://a.com", Spec.b "https://*.b.com:8080"]
   methods := [Spec.b "PUT", Spec.b "delete"]
@@ -295,11 +295,11 @@ example : Twin tw1 tw2 where
   resStar := by decide
   res := fun x => by
     rw [exists_iff_mem_filter_map, exists_iff_mem_filter_map]; exact mem_iff_of_subsets (by decide) x
-example : ∃ i, newInternalConfig ext0 tw1 = .ok i := by
+example : ∃ i, newInternalConfig extTw tw1 = .ok i := by
   unfold newInternalConfig; rw [if_pos (by decide)]; exact ⟨_, rfl⟩
-example : ∃ i, newInternalConfig ext0 tw2 = .ok i := by
+example : ∃ i, newInternalConfig extTw tw2 = .ok i := by
   unfold newInternalConfig; rw [if_pos (by decide)]; exact ⟨_, rfl⟩
-example : ∀ h info, ext0.ip6 h = some info → h.head? ≠ some 42 := fun _ _ h => by cases h
+example : ∀ h info, extTw.ip6 h = some info → h.head? ≠ some 42 := fun _ _ h => by cases h
 
 #print axioms C15_star_auth
 #print axioms C15_errors_perm
